@@ -195,14 +195,14 @@ def battery_part(ctx, n):
 
 
 def run(ctx):
-    n = ctx.n(120, 2200)
+    n = ctx.n(120, 2000)
     for k in range(n):
         got = desc_case(ctx) if k % 3 else hist_case(ctx)
         if got is None:
             ctx.case(nontrivial=False)
             continue
         analyse_session(ctx, *got, stream="gen" if k % 3 else "edited")
-    battery_part(ctx, ctx.n(5, 150))
+    battery_part(ctx, ctx.n(5, 60))
 
 
 def search(ctx):
